@@ -201,6 +201,32 @@ impl<'a> World<'a> {
         (null_mut(), None, ArgClass::Null)
     }
 
+    /// a result holder for out-parameters: usually a fresh haystack_value_init(), sometimes an existing handle
+    /// that already owns heap data (the callee must drop what it overwrites). Returns (pointer, slot index if reused).
+    unsafe fn holder(&mut self, avoid: &[Option<usize>]) -> (*mut Value, Option<usize>) {
+        if !self.slots.is_empty() && self.rng.chance(1, 3) {
+            let i = self.rng.below(self.slots.len());
+            if !avoid.contains(&Some(i)) {
+                return (self.slots[i].ptr, Some(i));
+            }
+        }
+        (Box::into_raw(haystack_value_init()), None)
+    }
+
+    /// after the call: record what the holder now holds
+    unsafe fn settle_holder(&mut self, out: *mut Value, reused: Option<usize>) {
+        if out.is_null() {
+            return;
+        }
+        let m = (*out).clone();
+        match reused {
+            Some(i) => self.slots[i].mirror = m,
+            None => {
+                self.add(out, m);
+            }
+        }
+    }
+
     fn text(&mut self) -> String {
         match self.rng.below(6) {
             0 => String::new(),
@@ -806,8 +832,9 @@ impl<'a> World<'a> {
             _ => {
                 // keys into an out value
                 let null_result = self.rng.chance(1, 10);
-                let out = if null_result { null_mut() } else { Box::into_raw(haystack_value_init()) };
-                self.log.push(format!("get_dict_keys dict#{di:?}({})", class.name()));
+                let (out, reused) = if null_result { (null_mut(), None) } else { self.holder(&[di]) };
+                let before = if out.is_null() { Value::Null } else { (*out).clone() };
+                self.log.push(format!("get_dict_keys dict#{di:?}({}) holder#{reused:?}", class.name()));
                 let r = haystack_value_get_dict_keys(p, out);
                 let ok = class == ArgClass::Valid && !null_result;
                 if ok {
@@ -821,15 +848,12 @@ impl<'a> World<'a> {
                     if r != ResultType::ERR {
                         self.fail("get_dict_keys", c, "no-sentinel", format!("{r:?}"));
                     }
-                    if !out.is_null() && !(*out).is_null() {
+                    if !out.is_null() && !same(&*out, &before) {
                         self.fail("get_dict_keys", c, "result-written-on-failure", "the result value was modified by a failed call".into());
                     }
                     self.expect_error("get_dict_keys", c);
                 }
-                if !out.is_null() {
-                    let m = (*out).clone();
-                    self.add(out, m);
-                }
+                self.settle_holder(out, reused);
             }
         }
     }
@@ -866,8 +890,8 @@ impl<'a> World<'a> {
                 let oob = self.rng.chance(1, 4) || len == 0;
                 let idx = if oob { len + self.rng.below(3) } else { self.rng.below(len) };
                 let null_result = self.rng.chance(1, 10);
-                let out = if null_result { null_mut() } else { Box::into_raw(haystack_value_init()) };
-                self.log.push(format!("get_grid_row_at grid#{gi:?}({}) idx {idx} len {len}", class.name()));
+                let (out, reused) = if null_result { (null_mut(), None) } else { self.holder(&[gi]) };
+                self.log.push(format!("get_grid_row_at grid#{gi:?}({}) idx {idx} len {len} holder#{reused:?}", class.name()));
                 let r = haystack_value_get_grid_row_at(p, idx, out);
                 let ok = class == ArgClass::Valid && gi.is_some() && !oob && !null_result;
                 if ok {
@@ -883,10 +907,7 @@ impl<'a> World<'a> {
                     }
                     self.expect_error("get_grid_row_at", c);
                 }
-                if !out.is_null() {
-                    let m = (*out).clone();
-                    self.add(out, m);
-                }
+                self.settle_holder(out, reused);
             }
         }
     }
@@ -1040,8 +1061,8 @@ impl<'a> World<'a> {
                 let fptr = fi.map_or(null_mut(), |i| self.filters[i].ptr);
                 let (p, gi, class) = self.choose(|v| v.is_grid());
                 let null_result = self.rng.chance(1, 10);
-                let out = if null_result { null_mut() } else { Box::into_raw(haystack_value_init()) };
-                self.log.push(format!("{op} filter#{fi:?} grid#{gi:?}({})", class.name()));
+                let (out, reused) = if null_result { (null_mut(), None) } else { self.holder(&[gi]) };
+                self.log.push(format!("{op} filter#{fi:?} grid#{gi:?}({}) holder#{reused:?}", class.name()));
                 let r = if all { haystack_filter_match_all_grid(fptr, p, out) } else { haystack_filter_first_match_in_grid(fptr, p, out) };
                 if fi.is_some() && class == ArgClass::Valid && !null_result {
                     let f = Filter::try_from(self.filters[fi.unwrap()].text.as_str()).unwrap();
@@ -1076,10 +1097,7 @@ impl<'a> World<'a> {
                     }
                     self.expect_error(op, c);
                 }
-                if !out.is_null() {
-                    let m = (*out).clone();
-                    self.add(out, m);
-                }
+                self.settle_holder(out, reused);
             }
         }
     }
@@ -1122,7 +1140,7 @@ impl<'a> World<'a> {
                 let utc = self.rng.coin();
                 let which_time = self.rng.coin();
                 let null_result = self.rng.chance(1, 10);
-                let out = if null_result { null_mut() } else { Box::into_raw(haystack_value_init()) };
+                let (out, reused) = if null_result { (null_mut(), None) } else { self.holder(&[i]) };
                 let op = if which_time { "get_datetime_time" } else { "get_datetime_date" };
                 self.log.push(format!("{op} #{i:?}({}) utc={utc}", class.name()));
                 let r = if which_time { haystack_value_get_datetime_time(p, utc, out) } else { haystack_value_get_datetime_date(p, utc, out) };
@@ -1142,13 +1160,67 @@ impl<'a> World<'a> {
                     }
                     self.expect_error(op, c);
                 }
-                if !out.is_null() {
-                    let m = (*out).clone();
-                    self.add(out, m);
-                }
+                self.settle_holder(out, reused);
             }
             _ => self.str_getter("get_datetime_timezone", haystack_value_get_datetime_timezone, |v| v.is_datetime(), |v| if let Value::DateTime(d) = v { Some(Some(crate::bridge::observe_datetime(d).tz)) } else { None }),
         }
+    }
+
+    /// Borrowed entry pointers used as arguments while their container is alive and unmodified: a pointer
+    /// obtained from get_list_entry_at / get_dict_entry is pushed / inserted into the same or another container.
+    unsafe fn op_borrowed(&mut self) {
+        let from_list = self.rng.coin();
+        let src = if from_list { self.pick_kind(|v| matches!(v, Value::List(l) if !l.is_empty())) } else { self.pick_kind(|v| matches!(v, Value::Dict(d) if !d.is_empty())) };
+        let Some(si) = src else { return };
+        let mut borrowed: *const Value = null();
+        let expect: Value;
+        if from_list {
+            let len = if let Value::List(l) = &self.slots[si].mirror { l.len() } else { 0 };
+            let idx = self.rng.below(len);
+            if haystack_value_get_list_entry_at(self.slots[si].ptr, idx, &mut borrowed) != ResultType::TRUE {
+                let _ = take_err();
+                return;
+            }
+            expect = if let Value::List(l) = &self.slots[si].mirror { l[idx].clone() } else { Value::Null };
+        } else {
+            let key = if let Value::Dict(d) = &self.slots[si].mirror { d.keys().nth(self.rng.below(d.len())).cloned().unwrap() } else { String::new() };
+            if key.contains('\0') {
+                return;
+            }
+            let ck = cstr(&key);
+            if haystack_value_get_dict_entry(self.slots[si].ptr, ck.as_ptr(), &mut borrowed) != ResultType::TRUE {
+                let _ = take_err();
+                return;
+            }
+            expect = if let Value::Dict(d) = &self.slots[si].mirror { d[&key].clone() } else { Value::Null };
+        }
+        // destination: the same container (half of the time) or another list/dict
+        let same_container = self.rng.coin();
+        let di = if same_container { Some(si) } else { self.pick_kind(|v| v.is_list() || v.is_dict()) };
+        let Some(di) = di else { return };
+        let dptr = self.slots[di].ptr;
+        self.log.push(format!("borrowed entry of #{si} -> container #{di}"));
+        if self.slots[di].mirror.is_list() {
+            let r = haystack_value_push_list_entry(dptr, borrowed);
+            if let Value::List(l) = &mut self.slots[di].mirror {
+                l.push(expect);
+            }
+            if r != ResultType::TRUE {
+                self.fail("push_list_entry", ArgClass::Valid, "borrowed-entry-rejected", format!("{r:?}"));
+                let _ = take_err();
+            }
+        } else {
+            let k = cstr("borrowedKey");
+            let r = haystack_value_insert_dict_entry(dptr, k.as_ptr(), borrowed);
+            if let Value::Dict(d) = &mut self.slots[di].mirror {
+                d.insert("borrowedKey".into(), expect);
+            }
+            if r != ResultType::TRUE {
+                self.fail("insert_dict_entry", ArgClass::Valid, "borrowed-entry-rejected", format!("{r:?}"));
+                let _ = take_err();
+            }
+        }
+        self.expect_no_error("borrowed-entry", ArgClass::Valid);
     }
 
     unsafe fn op_destroy(&mut self) {
@@ -1169,7 +1241,8 @@ impl<'a> World<'a> {
     pub unsafe fn step(&mut self) {
         self.ops += 1;
         let before = self.ctx.violations.len();
-        match self.rng.below(20) {
+        match self.rng.below(21) {
+            20 => self.op_borrowed(),
             0..=3 => self.op_make(),
             4 => self.op_predicates(),
             5..=7 => self.op_getter(),
